@@ -59,9 +59,9 @@ type VNode struct {
 
 // View is what a real shim would know, maintained purely from the SI traffic.
 type View struct {
-	Apps    map[string]*VApp
-	Nodes   map[string]*VNode
-	Keys    map[string]*VKey
+	Apps      map[string]*VApp
+	Nodes     map[string]*VNode
+	Keys      map[string]*VKey
 	Delivered []shim.Confirm // confirmations already sent (for duplicates)
 }
 
@@ -92,7 +92,7 @@ func (v *View) Apply(evs []*shim.Ev, settle bool) []ProtoViolation {
 	bad := func(rule string, e *shim.Ev, f string, a ...interface{}) {
 		out = append(out, ProtoViolation{Rule: rule, Text: fmt.Sprintf(f, a...), Ev: e})
 	}
-	dupSubmission := map[string]bool{}   // app ids re-submitted while known (expect one rejection, the known one lives on)
+	dupSubmission := map[string]bool{} // app ids re-submitted while known (expect one rejection, the known one lives on)
 	dupNode := map[string]bool{}
 	for _, e := range evs {
 		switch e.Dir + ":" + e.Kind {
